@@ -89,7 +89,7 @@ fn main() {
             println!("DIAG {} {:?}", d.message, d.labels);
         }
         let inp = runners::exec::Inputs { kind: 1, scale: 1.0 };
-        let o = runners::exec::RunOpts { n, sched, want_state: true, want_counts: true };
+        let o = runners::exec::RunOpts { n, sched, want_state: true, want_counts: true, want_trace: false };
         if !m.contains_key("no-run") {
             engine::panics::install_hook();
             println!("VM   {:?}", runners::exec::run_vm(&src, &inp, &o));
@@ -114,7 +114,7 @@ fn main() {
                 .iter()
                 .map(|s| json!({"name": s.name, "size": s.size, "exhaustive": s.exhaustive, "chunk": s.chunk, "case_timeout_s": s.case_timeout_s, "what": s.what}))
                 .collect();
-            println!("{}", json!({"prop": prop.id(), "spaces": sp, "rule": prop.rule(), "assumptions": prop.assumptions(), "required_classes": prop.required_classes(cx.tier)}));
+            println!("{}", json!({"prop": prop.id(), "spaces": sp, "rule": prop.rule(), "assumptions": prop.assumptions(), "required_classes": prop.required_classes(cx.tier), "hang_is_violation": prop.hang_is_violation()}));
         }
         "chunk" => {
             let a = worker::ChunkArgs {
